@@ -26,3 +26,57 @@ Print Assumptions C11_checker_sound.
 (** Non-vacuity: a file of seven pages: three tree nodes, a two-page chain, one free page. *)
 Example C11_example : check_pages 7 [1; 2; 5] [3; 4] [6] (Some 6) (Some 6) = true /\ check_pages 7 [1; 2; 5] [3; 4] [] None None = false.
 Proof. split; reflexivity. Qed.
+
+(** The allocator itself (io/pager.rs allocate_page / dealloc_page; Model/FreeList.v, run against
+    the pager on every check).  Along every sequence of allocations, link writes, releases of
+    B+tree pages and releases of overflow chains (link by link, in chain order, as the engine does
+    it): the free list read from the recorded head is an acyclic list; every page other than page
+    zero is either handed out or on the free list, never both and never neither; nothing outside
+    the file is owned; the recorded head and tail are the ends of the list; no page is handed out
+    twice. *)
+From Axv Require Import Model.FreeList Proofs.FreeListProofs.
+Definition C11_free_list_statement : Prop :=
+  forall ops, forallb engine_op ops = true ->
+    let s := fst (frun finit ops) in
+    NoDup (free_list s) /\ NoDup (used s) /\
+    (forall p, 0 < p < total s -> (In p (free_list s) /\ ~ In p (used s)) \/ (In p (used s) /\ ~ In p (free_list s))) /\
+    (forall p, In p (free_list s) \/ In p (used s) -> 0 < p < total s) /\
+    first s = hd_error (free_list s) /\ last s = last_opt (free_list s).
+Theorem C11_free_list : C11_free_list_statement.
+Proof. exact free_list_sound. Qed.
+Check C11_free_list : C11_free_list_statement.
+Print Assumptions C11_free_list.
+
+(** Freed pages are reused before the file grows: while the free list is not empty an allocation
+    returns its head, leaves the file size alone and leaves the rest of the list. *)
+Definition C11_free_pages_reused_statement : Prop :=
+  forall ops x r, forallb engine_op ops = true ->
+    let s := fst (frun finit ops) in
+    free_list s = x :: r ->
+    snd (alloc s) = FId x /\ total (fst (alloc s)) = total s /\ free_list (fst (alloc s)) = r.
+Theorem C11_free_pages_reused : C11_free_pages_reused_statement.
+Proof. exact free_pages_reused. Qed.
+Check C11_free_pages_reused : C11_free_pages_reused_statement.
+Print Assumptions C11_free_pages_reused.
+
+(** The restriction to chain-order releases cannot be dropped: a freed overflow page keeps the
+    `next` it had as a chain link, so releasing the first link of a chain on its own makes the
+    allocator hand out the second link while it is still in use.  (Not reachable through the
+    engine, which always releases whole chains front to back; the same sequence is replayed on
+    the pager on every run and gives the same answers.) *)
+Definition C11_single_link_release_statement : Prop :=
+  let ops := [FAlloc; FAlloc; FLink 1 2; FDeallocO 1; FAlloc; FAlloc] in
+  snd (frun finit ops) = [FId 1; FId 2; FOk; FOk; FId 1; FId 2] /\ ~ NoDup (used (fst (frun finit ops))).
+Theorem C11_single_link_release_refuted : C11_single_link_release_statement.
+Proof.
+  split; [reflexivity|]. vm_compute. intros H. inversion H as [|? ? Hn _]; subst. apply Hn. right. now left.
+Qed.
+Check C11_single_link_release_refuted : C11_single_link_release_statement.
+Print Assumptions C11_single_link_release_refuted.
+
+(** Non-vacuity: a chain of two links and a B+tree page are released and handed out again in release order. *)
+Example C11_allocator_example :
+  let ops := [FAlloc; FAlloc; FLink 1 2; FAlloc; FDeallocChain [1; 2]; FDeallocB 3; FAlloc; FAlloc; FAlloc; FAlloc] in
+  forallb engine_op ops = true /\
+  snd (frun finit ops) = [FId 1; FId 2; FOk; FId 3; FOk; FOk; FId 1; FId 2; FId 3; FId 4].
+Proof. split; reflexivity. Qed.
